@@ -561,3 +561,79 @@ Print Assumptions C10_dollars_two_inline_instance.
 Print Assumptions C10_dollars_one_display_instance.
 Print Assumptions C10_dollars_grammar2_nonvacuous.
 Print Assumptions C10_modes_grammar2_nonvacuous.
+
+(** * C10 over the THIRD document grammar (composition with [C02_parse_unparse3_partial])
+
+    [Doc/DocGrammar3.v]: the extended grammar (embedded by [up2_doc], same side
+    conditions, written form and meaning: [C02_extended_grammar_embeds]) plus
+    - [WPar3 ws mid]: a whitespace run with two or more newlines in a context WITHOUT the
+      paragraph specials (pending characters, like text);
+    - [PArg3 ws mid]: a paragraph break as the single-token argument of a call (a [\n\n]
+      specials node without arguments where the context has these specials, else a
+      characters node), recorded in the mode the argument's delta implies;
+    - [BGrp3 ws oc cc body tr]: a delimited group written directly in the body of a
+      delimited argument [oc … cc] (text, comments, nested such groups). *)
+From PLV Require Import Doc.DocGrammar3 Proofs.Compose3Modes.
+
+(** For EVERY context and EVERY document of the third grammar satisfying [ok_doc3], in
+    BOTH parsing modes: the parse of the written form succeeds, consumes the input, returns
+    the tree the document means, and that tree satisfies C10's implied-mode specification
+    w.r.t. text mode — every node records the mode implied by its enclosing constructs. *)
+Theorem C10_modes_grammar3 : forall cx d, ok_doc3 cx d = true ->
+  forall tol, exists nl,
+    parse_top (unparse3 d) tol cx (walker_state cx) = Ok (ONode (Some nl)) (length (unparse3 d))
+    /\ nl = gen_nodelist 0 (fst (tree_of3 cx (walker_state cx) 0 d))
+    /\ implied cx text_mode nl.
+Proof. exact grammar_modes3. Qed.
+
+(** the same as a statement about the meaning function alone (the form of [C10_modes_grammar2]) *)
+Theorem C10_modes_grammar3_tree : forall cx d, ok_doc3 cx d = true ->
+  implied cx text_mode (gen_nodelist 0 (fst (tree_of3 cx (walker_state cx) 0 d))).
+Proof. exact grammar_modes3_tree. Qed.
+
+(** [C10_modes_grammar2] is the instance at embedded documents *)
+Theorem C10_modes_grammar2_is_instance : forall cx d, ok_doc2 cx d = true ->
+  implied cx text_mode (gen_nodelist 0 (fst (tree_of2 cx (walker_state cx) 0 d))).
+Proof. exact grammar_modes2_from_third. Qed.
+
+Section ModesExample3.
+  Open Scope N_scope.
+  (** [$\sqrt[a[b]]{k}$\textbf\n\nx] under the default context: a group written directly in an
+      optional argument, inside a formula ([BGrp3]); a paragraph break as the argument of
+      [\textbf] ([PArg3]: the specials node [\n\n], in text mode) *)
+  Let d1 : doc3 := {| d_items3 :=
+    [Math3 [] MDollar
+       [Mac3 [] [115;113;114;116] []
+          [Brk3 [] 91 93 [Text3 [] [97]; BGrp3 [] 91 93 [BText [] [98]] []] []; Grp3 [] [Text3 [] [107]] []]] [];
+     Mac3 [] [116;101;120;116;98;102] [] [PArg3 [] []]; Text3 [] [120]]; d_trail3 := [] |}.
+  (** a context WITHOUT the paragraph specials: the macro [\m] with one mandatory argument
+      parsed in MATH mode (an enter-math delta) *)
+  Let bare : context :=
+    {| cx_macros := [([109], {| sp_args := APStd [{| a_spec := [123]; a_kind := AKExpr true; a_delta := ADEnterMath |}];
+                              sp_body_math := false |})];
+       cx_envs := []; cx_specials := []; cx_unk_macro := None; cx_unk_env := None |}.
+  (** [a\n\n$x\n \n$\m\n\n] under that context: whitespace runs with two newlines in text and in a
+      formula ([WPar3]: part of the characters node), and as the argument of [\m] ([PArg3]:
+      a characters node, in math mode without delimiter) *)
+  Let d2 : doc3 := {| d_items3 :=
+    [Text3 [] [97]; WPar3 [] []; Math3 [] MDollar [Text3 [] [120]; WPar3 [] [32]] [];
+     Mac3 [] [109] [] [PArg3 [] []]]; d_trail3 := [] |}.
+  Example C10_modes_grammar3_nonvacuous :
+    (ok_doc3 default_ctx d1 = true /\ length (unparse3 d1) = 26%nat
+     /\ parse_top (unparse3 d1) false default_ctx (walker_state default_ctx) = doc_result3 default_ctx d1
+     /\ impliedb default_ctx text_mode (gen_nodelist 0 (fst (tree_of3 default_ctx (walker_state default_ctx) 0 d1))) = true
+     /\ leaf_modes (gen_nodelist 0 (fst (tree_of3 default_ctx (walker_state default_ctx) 0 d1)))
+        = [([97], math_mode (Some [36])); ([98], math_mode (Some [36])); ([107], math_mode (Some [36]));
+           ([120], text_mode)])
+    /\ (ok_doc3 bare d2 = true /\ length (unparse3 d2) = 13%nat
+        /\ parse_top (unparse3 d2) false bare (walker_state bare) = doc_result3 bare d2
+        /\ impliedb bare text_mode (gen_nodelist 0 (fst (tree_of3 bare (walker_state bare) 0 d2))) = true
+        /\ leaf_modes (gen_nodelist 0 (fst (tree_of3 bare (walker_state bare) 0 d2)))
+           = [([97;10;10], text_mode); ([120;10;32;10], math_mode (Some [36])); ([10;10], math_mode None)]).
+  Proof. vm_compute. repeat split. Qed.
+End ModesExample3.
+
+Print Assumptions C10_modes_grammar3.
+Print Assumptions C10_modes_grammar3_tree.
+Print Assumptions C10_modes_grammar2_is_instance.
+Print Assumptions C10_modes_grammar3_nonvacuous.
